@@ -5,6 +5,9 @@ VERIF = os.path.dirname(os.path.dirname(os.path.abspath(__file__)))
 
 # id -> (category, technique, text, note, design_ref)
 CHECKS = {
+    'C19': ('exploration', 'trace monitoring of the real driver (mpmon): names recorded at AddVariables / AddConstraint / Set*Objective judged against the documented naming rule',
+            'Random models under cvt:names 0..3, name files present/absent/short/CRLF/look-alike and native/linear-only/mixed acceptance are converted by the real code; every delivered name is checked for presence, original items for the file\'s or the generic name, created items for derivation from a source item, and variables and constraints for pairwise distinct names.',
+            'variables and constraints are separate name spaces; three listed known findings (derived-name collisions, look-alike file names, a nameless row from a nested indicator conversion)', '2/C19'),
     'C09': ('fault_enumeration', 'end-to-end monitoring of the real driver (mpmon) under ASan over model/option/invocation families with output-path fault injection (strace -e inject, .sol path as directory); strict independent .sol parser as oracle',
             'Valid, infeasible, unsupported, big-M-unbounded and mutated NL inputs x valid/unknown/ill-typed options x -AMPL/wantsol modes x names-file shapes x output faults are run one process each; every run must terminate without signal or sanitizer report and end either in a .sol that parses completely with the NL header\'s dimensions and a code of the right class, or in no .sol with non-zero exit status and a diagnostic; feasibility witnesses from the exact evaluator refute false "infeasible" verdicts.',
             'strace write-fault injection restricted to the .sol path (confirmed by the (INJECTED) marker); a _GLIBCXX_ASSERTIONS abort counts as a crash; infeasible-by-construction models may legitimately be passed on to the solver', '2/C09'),
